@@ -50,7 +50,7 @@ def make_section(rng, kind, idx, pa, pb):
     s.old = 's%d/' % idx + s.old
     s.new = s.old
     s.classes = {oc}
-    if kind in ('renamed', 'renamed_changed', 'copied'):
+    if kind in ('renamed', 'renamed_changed', 'copied', 'binary_noindex'):
         s.new, nc = rand_path_shape(rng)
         s.new = 't%d/' % idx + s.new
         s.classes.add(nc)
@@ -68,6 +68,7 @@ def make_section(rng, kind, idx, pa, pb):
         h.lines = [(kk, t if not (kk == '+' and t.startswith('++ ')) else 'pp' + t[2:]) for kk, t in h.lines if kk != '\\']
         h.fragment = rng.choice(gen.FRAGMENTS + ['struct X {', 'a @@ b', '\tindented with tab', 'trailing space  '])
     s.pa, s.pb = pa, pb
+    s.cc_word = rng.choice(['cc', 'combined'])
     return s
 
 
@@ -84,6 +85,8 @@ def section_lines(s, fmt):
         return ['Submodule %s 1234567..89abcde:' % a, '  > a commit message']
     else:
         L = ['diff --git %s%s %s%s' % (pa, a, pb, b)]
+        if k == 'binary_cc':
+            L = ['diff --%s %s' % (s.cc_word, b), 'index 1111111,2222222..3333333', 'Binary files differ']
         idx = 'index 1111111..2222222'
         if k == 'modified':
             L += [idx + ' 100644', '--- %s%s' % (pa, tab_if_space(a)), '+++ %s%s' % (pb, tab_if_space(b))]
@@ -106,6 +109,9 @@ def section_lines(s, fmt):
             L += ['old mode %s' % s.old_mode, 'new mode %s' % s.new_mode, idx, '--- %s%s' % (pa, tab_if_space(a)),
                   '+++ %s%s' % (pb, tab_if_space(b))]
         elif k == 'binary':
+            L += [idx + ' 100644', 'Binary files %s%s and %s%s differ' % (pa, a, pb, b)]
+        elif k == 'binary_noindex':
+            # git diff --no-index dirA dirB: two different paths and no ---/+++ lines
             L += [idx + ' 100644', 'Binary files %s%s and %s%s differ' % (pa, a, pb, b)]
         elif k == 'binary_added':
             L += ['new file mode 100644', 'index 0000000..2222222', 'Binary files /dev/null and %s%s differ' % (pb, b)]
@@ -141,7 +147,9 @@ def expected_header(s, fmt, labels, arrow):
         return '%s%s %s %s' % (lab(labels['renamed']), s.old, arrow, s.new)
     if k == 'copied':
         return '%s%s %s %s' % (lab(labels['copied']), s.old, arrow, s.new)
-    if k == 'binary':
+    if k == 'binary_noindex':
+        return 'Binary files %s%s and %s%s differ' % (s.pa, s.old, s.pb, s.new)      # passed through, it names both files
+    if k in ('binary', 'binary_cc'):
         return lab(labels['modified']) + s.new + ' (binary file)'
     if k == 'binary_added':
         return lab(labels['added']) + s.new + ' (binary file)'
@@ -152,7 +160,7 @@ def run_item(item):
     _, seed = item
     rng = engine.item_rng(seed)
     fmt = 'plain' if rng.random() < 0.1 else 'git'
-    kinds_all = gen.SECTION_KINDS + ['submodule_log']
+    kinds_all = gen.SECTION_KINDS + ['submodule_log', 'binary_noindex', 'binary_cc']
     n = rng.choice([1, 2, 2, 3, 4])
     pa, pb = rng.choice(PREFIX_PAIRS)
     secs = []
@@ -221,6 +229,14 @@ def run_item(item):
         if pos >= len(infos):
             return bad('header-missing:' + s.kind, 'file header of section %d (%s) is missing' % (si, s.kind), exp, 'end of output')
         info = infos[pos]
+        if s.kind == 'binary_noindex':
+            if info.kind == 'file':
+                return bad('header-text:' + s.kind, 'a binary section with two different paths gets a file header naming another file', exp, info.text[:200])
+            if norm(info.text) != norm(exp):
+                return bad('header-missing:' + s.kind, 'the line reporting the two binary files is missing', exp, info.text[:200])
+            counters['file_headers'] += 1
+            pos += 1
+            continue
         if info.kind != 'file':
             return bad('header-missing:' + s.kind, 'expected the file header of section %d (%s), found a %s row' % (si, s.kind, info.kind), exp, info.text[:200])
         got = ''.join(c.ch for c in info.row.cells if gen.TAG_BY_RGB.get(c.fg) == 'file').strip()
